@@ -1,4 +1,5 @@
 import VermouthModel.C03_Text
+import VermouthModel.C03_Sort
 /-
 C03 — the TEXT of the `.top` file and the orchestration of `write_gmx_topology`
 (`vermouth/gmx/topology.py`), plus an independent `.top` reader.
@@ -163,6 +164,20 @@ def writeTopology (inp : TopIn) : Except TopErr TopOutText :=
   | .error e => .error e
   | .ok itps =>
     .ok { paramFiles := f1 ++ f2, itps := itps, top := topText inp.defines inp.names }
+
+/-! ### martinize2: `SortMoleculeAtoms()` between naming and writing, on the full molecule -/
+
+/-- the nodes of the molecule reordered (decorations move with their node) -/
+def sortTMol (t : TMol) : TMol :=
+  let ps := insSortBy (fun p q : Atom × Deco => sortLe sortbyDefault p.1 q.1) t.atoms
+  { t with mol := { t.mol with nodes := ps.map (·.1) }, deco := ps.map (·.2) }
+
+/-- `NameMolType(deduplicate, molname)`, then `SortMoleculeAtoms()`, then `write_gmx_topology`:
+the names are those of the UNSORTED molecules -/
+def pipelineIn (dedup : Bool) (molname : String) (inp : TopIn) : TopIn :=
+  { inp with
+    names := (nameMolTypes (shareMolType npClose) dedup (inp.sys.map (·.mol))).map fun g => (molName molname g).toList
+    sys := inp.sys.map sortTMol }
 
 /-! ### an independent `.top` reader
 
